@@ -432,7 +432,25 @@ def euf_abstract(terms):
     return [go(t) for t in terms]
 
 
+_FAILS = None          # shared counter of obligations that were not proved in this discharge (set before the fork)
+FAIL_LIMIT = int(os.environ.get("QVC_FAIL_LIMIT", "32"))
+
+
 def _solve(idx):
+    r = _solve_inner(idx)
+    if _FAILS is not None and r[1] != "proved":
+        with _FAILS.get_lock():
+            _FAILS.value += 1
+    return r
+
+
+def _short_mode():
+    """after many obligations of one run failed (a broken tree: hundreds of downstream obligations fail with it) the
+    remaining ones get the short attempts only; nothing changes on a tree where the obligations hold"""
+    return _FAILS is not None and _FAILS.value > FAIL_LIMIT
+
+
+def _solve_inner(idx):
     ob, extra_axioms, leaves = _OBS[idx]
     t0 = time.time()
     s = z3.Solver()
@@ -492,6 +510,8 @@ def _solve(idx):
                 (True, budget, 13), (False, budget, 13)]
     if not more_insts:
         attempts = [(False, budget // 6, 0), (False, budget // 3, 7), (False, budget, 13)]
+    if _short_mode():
+        attempts = attempts[:2]
     verdict, model, reason = "unknown", None, ""
     import random
     for k_att, (with_more, tmo, seed) in enumerate(attempts):
@@ -537,7 +557,7 @@ def _solve(idx):
             return (idx, "candidate", extract_model(s2.model(), leaves), time.time() - t0, "z3",
                     "z3: %s; cvc5: %s; counter-model of the quantifier-free relaxation" % (reason, v2))
     try:
-        cm = concretised_candidate(ob, leaves, size_symbols(leaves))
+        cm = None if _short_mode() else concretised_candidate(ob, leaves, size_symbols(leaves))
     except Exception as e:      # noqa
         cm = None
     if cm is not None:
@@ -671,6 +691,8 @@ def discharge(obligations, extra_axioms=(), leaves=None, workers=None):
     _OBS = [(ob, extra_axioms if isinstance(extra_axioms, tuple) else list(extra_axioms),
              leaves if not isinstance(leaves, list) else leaves[i])
             for i, ob in enumerate(obligations)]
+    global _FAILS
+    _FAILS = mp.Value("i", 0)
     workers = workers or min(16, max(1, len(obligations)))
     results = []
     if workers == 1 or len(obligations) == 1:
